@@ -1,15 +1,89 @@
-open C11_model
-let rec pos_of_int i = if i = 1 then XH else if i land 1 = 1 then XI (pos_of_int (i lsr 1)) else XO (pos_of_int (i lsr 1))
-let n_of_int i = if i = 0 then N0 else Npos (pos_of_int i)
-let rec int_of_pos = function XH -> 1 | XO p -> 2 * int_of_pos p | XI p -> 2 * int_of_pos p + 1
-let int_of_z = function Z0 -> 0 | Zpos p -> int_of_pos p | Zneg p -> - (int_of_pos p)
+(* C11 driver: same case lines as harness/hwv_types.c, answered by the extracted model.
+   Prelude: ocaml/hvnum.ml (number conversions). *)
 let b x = if x then 1 else 0
+let rec int_of_nat = function O -> 0 | S n -> 1 + int_of_nat n
+let bytes_of_hex h =
+  if h = "-" then [] else
+  Stdlib.List.init (Stdlib.String.length h / 2) (fun i -> n_of_int (int_of_string ("0x" ^ Stdlib.String.sub h (2 * i) 2)))
+let hex_of_bytes l = if l = [] then "-" else Stdlib.String.concat "" (Stdlib.List.map (fun x -> Printf.sprintf "%02x" (int_of_n x)) l)
+let nd = n_of_dec
+let lineno = ref 0
+
+let sscanf_result s asz =
+  match type_sscanf_cur (s @ [N0]) asz with
+  | Oob -> "OOB"
+  | Ok None -> "-1"
+  | Ok (Some (t, w)) ->
+    Printf.sprintf "0 type=%d %s" (int_of_n t)
+      (match w with
+       | AWnone -> "none"
+       | AWcache (d, c) -> Printf.sprintf "cache %s %s" (dec_of_n d) (dec_of_z c)
+       | AWgroup d -> Printf.sprintf "group %s" (dec_of_n d)
+       | AWbridge (u, d) -> Printf.sprintf "bridge %s %s" (dec_of_z u) (dec_of_z d)
+       | AWosdev o -> Printf.sprintf "osdev %s" (dec_of_n o))
+
+(* every size 0..needed+1: f init -> pr (option pstate) *)
+let all_sizes tag args (f : n list -> pstate option pr) =
+  match f [] with
+  | PrLoop -> Printf.printf "%s#%d %s LOOP\n" tag !lineno args; None
+  | PrAssert -> Printf.printf "%s#%d %s ASSERT\n" tag !lineno args; None
+  | PrOk None -> Printf.printf "%s#%d %s STORE-OUT-OF-BUFFER\n" tag !lineno args; None
+  | PrOk (Some st0) ->
+    let need = int_of_nat st0.ps_ret in
+    Printf.printf "%s#%d %s need=%d\n" tag !lineno args need;
+    let full = ref None in
+    let wanted k = need <= 96 || k <= 3 || (k >= 24 && k <= 26) || (k >= 31 && k <= 33) || (k >= 63 && k <= 65) || (k >= 127 && k <= 129) || k + 1 >= need in
+    for k = 0 to need + 1 do
+      if wanted k then
+      let init = Stdlib.List.init k (fun _ -> n_of_int 0xaa) in
+      (match f init with
+       | PrOk (Some st) ->
+         Printf.printf "%s#%d size=%d ret=%d buf=%s\n" tag !lineno k (int_of_nat st.ps_ret) (hex_of_bytes st.ps_buf);
+         if k = need + 1 then full := Some st.ps_buf
+       | PrOk None -> Printf.printf "%s#%d size=%d STORE-OUT-OF-BUFFER\n" tag !lineno k
+       | PrLoop -> Printf.printf "%s#%d size=%d LOOP\n" tag !lineno k
+       | PrAssert -> Printf.printf "%s#%d size=%d ASSERT\n" tag !lineno k)
+    done;
+    !full
+
+let strip_nul l = (* text up to the first NUL *)
+  let rec go = function [] -> [] | N0 :: _ -> [] | x :: t -> x :: go t in go l
+
 let () =
   try while true do
     let l = input_line stdin in
-    match String.split_on_char ' ' l with
+    incr lineno;
+    let toks = Stdlib.List.filter (fun s -> s <> "") (Stdlib.String.split_on_char ' ' l) in
+    (match toks with
     | ["cmp"; a; c] -> Printf.printf "cmp %s %s %d\n" a c (int_of_z (compare_types (n_of_int (int_of_string a)) (n_of_int (int_of_string c))))
     | ["kind"; a] -> let t = n_of_int (int_of_string a) in
       Printf.printf "kind %s %d %d %d %d %d %d %d\n" a (b (is_normal t)) (b (is_memory t)) (b (is_io t)) (b (is_misc t)) (b (is_cache t)) (b (is_dcache t)) (b (is_icache t))
-    | _ -> ()
+    | ["tsn"; t; cd; ct; gd; bu; bd; os; flags] ->
+      let o = { to_type = nd t; to_cdepth = nd cd; to_ctype = nd ct; to_gdepth = nd gd; to_bup = nd bu; to_bdown = nd bd; to_os = nd os } in
+      let args = Stdlib.String.sub l 4 (Stdlib.String.length l - 4) in
+      (match all_sizes "tsn" args (fun init -> type_snprintf init o (nd flags)) with
+       | Some buf ->
+         Printf.printf "tsn#%d rt %s\n" !lineno (sscanf_result (strip_nul buf) (Some sIZEOF_ATTR_UNION));
+         (match type_text o (nd flags) with
+          | PrOk txt -> Printf.printf "tsn#%d garb ret=%d text=%s\n" !lineno (Stdlib.List.length txt) (hex_of_bytes txt)
+          | PrLoop -> Printf.printf "tsn#%d garb LOOP\n" !lineno
+          | PrAssert -> Printf.printf "tsn#%d garb ASSERT\n" !lineno)
+       | None -> ())
+    | "asn" :: t :: tot :: loc :: cs :: cl :: ca :: bu :: bd :: bdom :: bsec :: bsub :: pdom :: pbus :: pdev :: pfunc :: pven :: pdevid :: pcls :: clstxt :: link :: linktxt :: sep :: flags :: ninfo :: rest ->
+      let rec pairs = function n :: v :: r -> (bytes_of_hex n, bytes_of_hex v) :: pairs r | _ -> [] in
+      let link_nonzero = (try float_of_string link <> 0.0 with _ -> true) in
+      let a = { ao_type = nd t; ao_total_memory = nd tot; ao_local_memory = nd loc; ao_csize = nd cs; ao_clinesize = nd cl; ao_cassoc = z_of_dec ca;
+                ao_bup = nd bu; ao_bdown = nd bd; ao_bdomain = nd bdom; ao_bsec = nd bsec; ao_bsub = nd bsub;
+                ao_pdomain = nd pdom; ao_pbus = nd pbus; ao_pdev = nd pdev; ao_pfunc = nd pfunc; ao_pvendor = nd pven; ao_pdevice = nd pdevid; ao_pclass = nd pcls;
+                ao_pclass_text = bytes_of_hex clstxt; ao_link_nonzero = link_nonzero; ao_link_text = bytes_of_hex linktxt;
+                ao_infos = (let ps = pairs rest in Stdlib.List.filteri (fun i _ -> i < int_of_string ninfo) ps) } in
+      let args = Stdlib.String.sub l 4 (Stdlib.String.length l - 4) in
+      ignore (all_sizes "asn" args (fun init -> attr_snprintf init a (bytes_of_hex sep) (nd flags)))
+    | [("ssc" | "ssc!"); hex; asz] ->
+      let a = int_of_string asz in
+      Printf.printf "ssc %s %s -> %s\n" hex asz (sscanf_result (bytes_of_hex hex) (if a < 0 then None else Some (n_of_int a)))
+    | ["tstr"; a] ->
+      let s = lit (obj_type_string (n_of_int (int_of_string a))) in
+      Printf.printf "tstr %s %s rt %s\n" a (hex_of_bytes s) (sscanf_result s (Some sIZEOF_ATTR_UNION))
+    | _ -> ())
   done with End_of_file -> ()
